@@ -277,6 +277,21 @@ func (y *sys) finish(name string, beh []step, done int, diverged string, st *sta
 	y.mu.Unlock()
 }
 
+// guarded runs one replay; a scheduler instance that got stuck (see type stuck) is abandoned and reported.
+func guarded(f func()) (msg string) {
+	defer func() {
+		if r := recover(); r != nil {
+			s, ok := r.(stuck)
+			if !ok {
+				panic(r)
+			}
+			msg = string(s)
+		}
+	}()
+	f()
+	return ""
+}
+
 func loadBehaviours(dir string) (names []string, behs [][]step) {
 	files, err := filepath.Glob(filepath.Join(dir, "*.json"))
 	if err != nil || len(files) == 0 {
@@ -342,6 +357,8 @@ func Run(r *rt.Run) error {
 	// its waits) adds nothing.  Stop after maxCut behaviours were cut short; the check decides what that means.
 	const maxCut = 120
 	var cut, skipped int64
+	var stuckMu sync.Mutex
+	var stuckMsgs []string
 	for l := 0; l < lanes; l++ {
 		wg.Add(1)
 		go func(l int) {
@@ -353,10 +370,19 @@ func Run(r *rt.Run) error {
 					continue
 				}
 				before := sts[l].diverged
-				if race > 0 && i%race == race-1 {
-					replayRace(traces[l], names[i], behs[i], i%3 == 1, rng, sts[l])
-				} else {
-					replay(traces[l], names[i], behs[i], i%3 == 1, rng, sts[l])
+				if msg := guarded(func() {
+					if race > 0 && i%race == race-1 {
+						replayRace(traces[l], names[i], behs[i], i%3 == 1, rng, sts[l])
+					} else {
+						replay(traces[l], names[i], behs[i], i%3 == 1, rng, sts[l])
+					}
+				}); msg != "" {
+					stuckMu.Lock()
+					stuckMsgs = append(stuckMsgs, msg)
+					stuckMu.Unlock()
+					atomic.StoreInt64(&cut, maxCut) // every lane stops after its current behaviour
+					atomic.AddInt64(&skipped, 1)
+					continue
 				}
 				atomic.AddInt64(&cut, int64(sts[l].diverged-before))
 				key, _ := json.Marshal(behs[i])
@@ -379,6 +405,9 @@ func Run(r *rt.Run) error {
 		for k, v := range s.divergedAt {
 			tot.divergedAt[k] += v
 		}
+	}
+	if len(stuckMsgs) > 0 {
+		r.Extra["stuck"] = stuckMsgs
 	}
 	r.Extra["behaviours_replayed"] = tot.behaviours
 	r.Extra["behaviours_skipped_after_too_many_cut_short"] = skipped
